@@ -148,14 +148,16 @@ package scheduler
 // ---------------------------------------------------------------------------------------------
 // Entry reader: one entry per (non-suspended DAG, schedule, kind), Next = Parsed.Next(now), job bound to the DAG
 
-//@ ufunc job_dag(j job) *dag.DAG
-//@ ufunc job_next(j job) time.Time
+// What a job is about, read off the one implementation there is (the interface contract below is checked against the
+// implementation's contract: refinement).
+//@ sfunc job_dag(j job) *dag.DAG = asType(j, "*jobImpl").DAG
+//@ sfunc job_next(j job) time.Time = asType(j, "*jobImpl").Next
 
 //@ fn (jobCreator).CreateJob(jc, workflow, next) (j)
 //@   props C09
 //@   trusted
 //@   noeffect
-//@   ensures j != nil && job_dag(j) == workflow && job_next(j) == next
+//@   ensures j != nil && isType(j, "*jobImpl") && job_dag(j) == workflow && job_next(j) == next
 
 //@ fn (jobCreatorImpl).CreateJob(jf, workflow, next) (j)
 //@   props C09
@@ -192,6 +194,8 @@ package scheduler
 //@   assert before (*entryReaderImpl).Read$1#1 [C09 stop_schedules] arg0 == workflow && arg1 == workflow.StopSchedule && arg2 == entryTypeStop
 //@   assert before (*entryReaderImpl).Read$1#2 [C09 restart_schedules] arg0 == workflow && arg1 == workflow.RestartSchedule && arg2 == entryTypeRestart
 //@   ensures [C09 read_never_fails] err == nil
+//@   ensures [C09 entries_are_present] forall k int :: 0 <= k && k < len(res) ==> res[k] != nil
+//@   loop 0 invariant forall k int :: 0 <= k && k < len(entries) ==> entries[k] != nil
 //@   loop 0 step [C09 unsuspended_dag_gets_all_its_entries] len(entries) == iter(len(entries)) ||
 //@        (exists d *dag.DAG :: len(entries) == iter(len(entries)) + len(d.Schedule) + len(d.StopSchedule) + len(d.RestartSchedule))
 
